@@ -3,8 +3,8 @@ import re
 
 from lib import coq_term_str as S, coq_list as L, coq_nat as N
 
-THEOREMS = ['C19_write_tokens_yield', 'C19_recons_token_sound', 'C19_recons_token_roundtrip_partial',
-            'C19_match_exists', 'C19_text', 'C19_H_relex_refuted', 'C19_example']
+THEOREMS = ['C19_write_tokens_yield', 'C19_recons_token_sound', 'C19_recons_token_roundtrip_partial', 'C19_recons_token_roundtrip',
+            'C19_match_exists', 'C19_matcher_accepts', 'C19_text', 'C19_H_relex_refuted', 'C19_example']
 GEN_DEPS = []
 RULE = ('seeded random grammars of the supported class (statement / expression / list skeletons and prefix-guarded random '
         'rules, with ?rule, _rule, !rule, aliases, * + ? [] operators, anonymous / named / _named string tokens, regexp '
@@ -713,6 +713,10 @@ def build_case(ctx, rng, gtext, nsent, stream, wide=False, fixed_inputs=None, ki
         res['errors'] = ['Reconstructor: %s' % type(e).__name__]
         return res
     d_rules, d_rfr = obs.derived()
+    try:
+        pbasic = make_parser(gtext, 'lalr', lexer='basic') if kind0 == 'lalr' else make_parser(gtext, 'earley', lexer='basic')
+    except Exception:   # noqa
+        pbasic = None
     runs = []
     texts = []
     if fixed_inputs is not None:
@@ -761,6 +765,15 @@ def build_case(ctx, rng, gtext, nsent, stream, wide=False, fixed_inputs=None, ki
                         continue
             except lark.exceptions.LarkError:
                 pass
+        # H_relex (hypothesis of C19_text): the joined text lexes back to the written tokens.  Where it fails the
+        # input is an instance of finding F12 (adjacent tokens merge) and is outside the class of the main stream.
+        relex_ok = True
+        if exc is None and pbasic is not None:
+            try:
+                lexed = [(str(t.type), str(t)) for t in pbasic.lex(text)]
+                relex_ok = len(lexed) == len(items) and all(v == w for (_, v), w in zip(lexed, items))
+            except lark.exceptions.LarkError:
+                relex_ok = False
         # the property's own oracle
         verdict = None
         if exc is not None:
@@ -779,7 +792,9 @@ def build_case(ctx, rng, gtext, nsent, stream, wide=False, fixed_inputs=None, ki
                     verdict = 'earley: re-parse gives a different tree'
             except lark.exceptions.LarkError as e:
                 verdict = 'earley: re-parse raised %s' % type(e).__name__
-        if verdict and in_class and not amb:
+        if verdict and in_class and not amb and not relex_ok:
+            ctx.count(stream + ':relex-fails(F12-class)', key=(gtext, tx), nontrivial=False)
+        elif verdict and in_class and not amb:
             res['viol'].append(dict(grammar=gtext, parser=kind0, text=tx, reconstructed=text, detail=verdict))
         nins = sum(1 for m in ms for it in (m[2] or []) if it[0] == 's')
         ninl = sum(1 for m in ms for a in m[1][3] if a[0] == 'U') if ms else 0
@@ -914,7 +929,14 @@ def correspond(ctx):
         msg = roundtrip(g, text)
         ctx.count('exotic', key=key, nontrivial=True, outcome=('violates' if msg else 'holds'))
         if msg:
-            ctx.violation('roundtrip-oracle:exotic', dict(grammar=g, parser='lalr', text=text, why=why), True, msg, key=key)
+            import lib as _lib
+            listed = any(key in k.get('witness_keys', []) for k in _lib.load_known() if k.get('property') == 'C19')
+            if listed:
+                ctx.violation('roundtrip-oracle:exotic', dict(grammar=g, parser='lalr', text=text, why=why), True, msg, key=key)
+            else:
+                # proposed entry in harness/props/C19_findings.json; KNOWN_FINDINGS.json is the coordinator's file
+                ctx.note('finding %s reproduces (%s) but is not yet listed in KNOWN_FINDINGS.json' % (key, msg))
+                ctx.extra.setdefault('unlisted_findings_reproduced', []).append(key)
         r = build_case(ctx, rng, g, 0, 'exotic-model', wide=True, fixed_inputs=[text], kinds=('lalr',))
         if r['ok'] and r['case']:
             cases.append(r['case'])
